@@ -32,6 +32,17 @@ def seq(*fs):
 
 
 X = "rand_xoshiro/src/"
+HWBAD5 = """        let mut chunks = dest.chunks_exact_mut(8);
+        for chunk in &mut chunks {
+            chunk.copy_from_slice(&self.next_u64().to_le_bytes());
+        }
+        let tail = chunks.into_remainder();
+        let n = tail.len();
+        if n > 5 {
+            tail.copy_from_slice(&self.next_u64().to_le_bytes()[..n]);
+        } else if n > 0 {
+            tail.copy_from_slice(&self.next_u32().to_le_bytes()[..n]);
+        }"""
 CONTROLS = [
     # ------------------------------------------------------------------ must fire
     ("fire", "xoshiro256 rotate 45->44", rep(X + "common.rs", "$self.s[3] = $self.s[3].rotate_left(45);", "$self.s[3] = $self.s[3].rotate_left(44);"), ["C01", "C07", "C06"]),
@@ -86,6 +97,11 @@ CONTROLS = [
     ("silent", "Hc128Rng::eq compares in the other order", rep("rand_hc/src/hc128.rs", "self.0.core == rhs.0.core && self.0.index() == rhs.0.index()", "self.0.index() == rhs.0.index() && self.0.core == rhs.0.core"), ["C10"]),
     ("silent", "ISAAC rngstep sum reassociated", rep("rand_isaac/src/isaac.rs", "let y = *a + *b + ind(mem, x, 2);", "let y = ind(mem, x, 2) + (*b + *a);"), ["C03", "C14"]),
     ("silent", "docs and a local renamed", rep("rand_xorshift/src/lib.rs", "        let x = self.x;\n        let t = x ^ (x << 11);", "        // first state word\n        let first = self.x;\n        let t = first ^ (first << 11);"), ["C04", "C07", "C14"]),
+    ("silent", "fill_bytes hand-written to the table (xoshiro256++)", rep(X + "xoshiro256plusplus.rs", "        fill_bytes_via_next(self, dest);", '        let mut chunks = dest.chunks_exact_mut(8);\n        for chunk in &mut chunks {\n            chunk.copy_from_slice(&self.next_u64().to_le_bytes());\n        }\n        let tail = chunks.into_remainder();\n        let n = tail.len();\n        if n > 4 {\n            tail.copy_from_slice(&self.next_u64().to_le_bytes()[..n]);\n        } else if n > 0 {\n            tail.copy_from_slice(&self.next_u32().to_le_bytes()[..n]);\n        }'), ["C05", "C14", "C18"]),
+    ("silent", "fill_bytes hand-written to the table (jitter)", rep("rand_jitter/src/lib.rs", "        impls::fill_bytes_via_next(self, dest)\n", '        let mut chunks = dest.chunks_exact_mut(8);\n        for chunk in &mut chunks {\n            chunk.copy_from_slice(&self.next_u64().to_le_bytes());\n        }\n        let tail = chunks.into_remainder();\n        let n = tail.len();\n        if n > 4 {\n            tail.copy_from_slice(&self.next_u64().to_le_bytes()[..n]);\n        } else if n > 0 {\n            tail.copy_from_slice(&self.next_u32().to_le_bytes()[..n]);\n        }\n'), ["C05", "C16"]),
+    ("fire", "fill_bytes hand-written, 4-byte tail from next_u64", rep(X + "xoshiro256plusplus.rs", "        fill_bytes_via_next(self, dest);", '        let mut chunks = dest.chunks_exact_mut(8);\n        for chunk in &mut chunks {\n            chunk.copy_from_slice(&self.next_u64().to_le_bytes());\n        }\n        let tail = chunks.into_remainder();\n        let n = tail.len();\n        if n > 3 {\n            tail.copy_from_slice(&self.next_u64().to_le_bytes()[..n]);\n        } else if n > 0 {\n            tail.copy_from_slice(&self.next_u32().to_le_bytes()[..n]);\n        }'), ["C05"]),
+    ("fire", "fill_bytes hand-written, 5-byte tail sliced from 4 bytes", rep(X + "xoshiro256plusplus.rs", "        fill_bytes_via_next(self, dest);", HWBAD5), ["C14", "C05"]),
+    ("fire", "jitter fill_bytes straight from gen_entropy, half kept", rep("rand_jitter/src/lib.rs", "        impls::fill_bytes_via_next(self, dest)\n", '        let mut chunks = dest.chunks_exact_mut(8);\n        for chunk in &mut chunks {\n            chunk.copy_from_slice(&self.gen_entropy().to_le_bytes());\n        }\n        impls::fill_bytes_via_next(self, chunks.into_remainder())\n'), ["C16", "C05"]),
 ]
 
 
